@@ -31,6 +31,26 @@ def make_scratch(repo="/repo"):
     return d, dst
 
 
+def apply_patch(root, patch):
+    """Apply a unified diff (path relative to /verif) to the scratch copy; returns the files it touches with their original text."""
+    import re
+    import subprocess
+    pp = os.path.join(VERIF, patch)
+    with open(pp) as f:
+        files = re.findall(r"^\+\+\+ b/(\S+)", f.read(), re.M)
+    undo = []
+    for rel in files:
+        q = os.path.join(root, rel)
+        if os.path.exists(q):
+            with open(q) as f:
+                undo.append((q, f.read()))
+    r = subprocess.run(["git", "apply", "-p1", pp], cwd=root, stdout=subprocess.PIPE, stderr=subprocess.STDOUT, text=True)
+    if r.returncode != 0:
+        revert(undo)
+        raise ValueError("patch %s does not apply: %s" % (patch, r.stdout.strip()[:120]))
+    return undo
+
+
 def apply_edits(root, edits):
     """edits: list of {file, find, replace, count?}.  Returns list of (path, original text) for undo."""
     undo = []
@@ -87,7 +107,12 @@ def run_variants(variants, repo="/repo", verbose=True, benign_props=None):
             t0 = time.time()
             r = {"id": v["id"], "kind": v.get("kind", "mutant"), "property": v.get("property"), "ok": False, "why": ""}
             try:
-                undo = apply_edits(scratch, v["edits"])
+                undo = apply_patch(scratch, v["patch"]) if v.get("patch") else []
+                try:
+                    undo = undo + apply_edits(scratch, v.get("edits", []))
+                except ValueError:
+                    revert(undo)
+                    raise
             except ValueError as e:
                 r["why"] = "STALE: " + str(e)
                 results.append(r)
